@@ -204,10 +204,14 @@ func (q c02Host) eval(s *c02Stream, _ time.Time) bool {
 	return hostMatches(s.cAddr, w, q.Bits) || hostMatches(s.sAddr, w, q.Bits)
 }
 
-type c02Proto struct{ TCP, UDP bool }
+// Self adds the element "@protocol@" (the stream's own protocol: always equal) to the list
+type c02Proto struct{ TCP, UDP, Self bool }
 
 func (q c02Proto) str() string {
 	var p []string
+	if q.Self {
+		p = append(p, "@protocol@")
+	}
 	if q.TCP {
 		p = append(p, "tcp")
 	}
@@ -216,7 +220,9 @@ func (q c02Proto) str() string {
 	}
 	return "protocol:" + strings.Join(p, ",")
 }
-func (q c02Proto) eval(s *c02Stream, _ time.Time) bool { return s.UDP && q.UDP || !s.UDP && q.TCP }
+func (q c02Proto) eval(s *c02Stream, _ time.Time) bool {
+	return q.Self || s.UDP && q.UDP || !s.UDP && q.TCP
+}
 
 type c02Time struct {
 	Key    string // ftime ltime time
@@ -514,7 +520,7 @@ func genAtom(rng *rand.Rand, withData bool) c02Q {
 		}
 		return h
 	case 4:
-		return c02Proto{rng.Intn(3) != 0, rng.Intn(3) == 0}
+		return c02Proto{rng.Intn(3) != 0, rng.Intn(3) == 0, rng.Intn(8) == 0}
 	case 5:
 		lo, hi := -1, -1
 		// bounds at half hours: stream times are at whole hours (+ a few seconds) before the reference
@@ -542,8 +548,8 @@ func genAtom(rng *rand.Rand, withData bool) c02Q {
 func genQuery(rng *rand.Rand, depth int, withData bool, inNeg bool) c02Q {
 	if depth == 0 || rng.Intn(3) == 0 {
 		a := genAtom(rng, withData)
-		if p, ok := a.(c02Proto); ok && !p.TCP && !p.UDP {
-			a = c02Proto{true, false}
+		if p, ok := a.(c02Proto); ok && !p.TCP && !p.UDP && !p.Self {
+			a = c02Proto{true, false, false}
 		}
 		if !inNeg && rng.Intn(4) == 0 {
 			return c02Not{a}
